@@ -9,6 +9,7 @@
 //   mode 2  random designs (ncases cases)
 //   mode 3  exhaustive export sweep: one design per reserved word x 3 letter cases, the word used in every name position
 //           (ncases = additional random designs appended)
+//   mode 4  directed designs: nested/sibling sub-entities, instance labels and entity names from 1..3 base names (ncases cases)
 // Protocol (see lean/Driver/C13.lean):
 //   words <w1> <w2> ...                       the harness' copy of the reserved-word list (driver checks it against its own)
 //   case <id> alloc / tree <n> <p|-> ... / q <scope> <kind> <desired|-> => <name|!e> / end
@@ -369,7 +370,35 @@ struct DesignGen {
 	}
 };
 
-static void exportCase(const std::string &id, Rng r, NamePool *pool, const std::string &fixed) {
+// directed pattern family (mode 4): sibling / nested sub-entities whose instance labels, entity names, pins and named signals are
+// drawn from the same two or three base names in different letter cases, with and without component instantiation — the
+// situations in which names allocated in *different* NamespaceScopes end up in one VHDL declarative region.
+struct DirectedGen {
+	Rng &r;
+	NameSource &names;
+	DirectedGen(Rng &rng, NameSource &n) : r(rng), names(n) {}
+	UInt level(UInt v, unsigned depth) {
+		unsigned nsub = (unsigned) r.range(1, 3);
+		for (unsigned k = 0; k < nsub; k++) {
+			Area area(names.get("ent"), true);
+			if (r.chance(2, 3)) area.instanceName(names.get("inst"));
+			if (r.chance(1, 2)) area.useComponentInstantiation(true);
+			UInt x = v + ConstUInt(k + 1, v.width());
+			if (r.chance(1, 2)) setName(x, names.get("sig"));
+			if (depth > 0 && r.chance(1, 3)) x = level(x, depth - 1);
+			if (r.chance(1, 4)) { GroupScope g(GroupScope::GroupType::AREA, names.get("area")); x = x ^ v; }
+			v = x;
+		}
+		return v;
+	}
+	void build() {
+		UInt in = pinIn(4_b).setName(names.get("pin"));
+		UInt v = level(in, 1);
+		pinOut(v).setName(names.get("pin"));
+	}
+};
+
+static void exportCase(const std::string &id, Rng r, NamePool *pool, const std::string &fixed, bool directed = false) {
 	std::ostringstream log;
 	NameSource names;
 	names.pool = pool; names.fixed = fixed; names.r = &r; names.log = &log;
@@ -379,7 +408,10 @@ static void exportCase(const std::string &id, Rng r, NamePool *pool, const std::
 	std::string failure;
 	try {
 		DesignScope design;
-		{
+		if (directed) {
+			DirectedGen g(r, names);
+			g.build();
+		} else {
 			DesignGen g(r, names);
 			g.build();
 		}
@@ -428,6 +460,13 @@ int main(int argc, char **argv) {
 		allocSweep(r);
 	} else if (mode == 2) {
 		for (uint64_t i = 0; i < ncases; i++) { Rng r = top.fork(); NamePool pool(r, (unsigned) r.range(2, 6)); exportCase(std::to_string(i), r.fork(), &pool, ""); }
+	} else if (mode == 4) {
+		for (uint64_t i = 0; i < ncases; i++) {
+			Rng r = top.fork();
+			NamePool pool(r, (unsigned) r.range(1, 3));
+			if (r.chance(1, 2)) for (auto &b : pool.bases) b = randomIdent(r);     // half of the cases: no reserved words at all
+			exportCase("d" + std::to_string(i), r.fork(), &pool, "", true);
+		}
 	} else {
 		for (size_t w = 0; w < NRES; w++)
 			for (unsigned c = 0; c < 3; c++) {
